@@ -77,6 +77,29 @@ def diag_for(run, text, names):
     return out
 
 
+def known_findings(pid):
+    out = []
+    p = os.path.join(VERIF, 'known_findings.txt')
+    if os.path.exists(p):
+        for l in open(p):
+            m = re.match(r'finding:\s+property=(\S+)\s+id=(\S+)\s+(.*)$', l.strip())
+            if m and m.group(1) == pid:
+                w = re.search(r'what="([^"]*)"', m.group(3))
+                out.append({'id': m.group(2), 'what': w.group(1) if w else m.group(3)})
+    return out
+
+
+def replay_bin():
+    """build /verif/replay against the current /repo (offline); -> path or None"""
+    import shutil
+    rdir = os.path.join(VERIF, 'replay')
+    shutil.copy('/repo/Cargo.lock', os.path.join(rdir, 'Cargo.lock'))
+    env = dict(os.environ, CARGO_NET_OFFLINE='true', CARGO_TARGET_DIR=os.path.join(VERIF, 'build/replay-target'))
+    p = subprocess.run(['cargo', 'build', '--offline', '--release'], cwd=rdir, env=env, capture_output=True, text=True)
+    b = os.path.join(VERIF, 'build/replay-target/release/coset-replay')
+    return b if p.returncode == 0 and os.path.exists(b) else None
+
+
 def main():
     ap = argparse.ArgumentParser()
     ap.add_argument('pid', nargs='?')
@@ -202,6 +225,42 @@ def main():
             print('FAILED-OBLIGATION property=%s obligation=%s' % (pid, n))
         print('VIOLATION property=%s replay=%s%s' % (pid, rpath, '' if cex else ' no-failing-input-found'))
         return 1
+    kf = known_findings(pid)
+    meas = getattr(obligations, 'MEASUREMENTS', {}).get(pid, [])
+    if meas:
+        rb = replay_bin()
+        if rb is None:
+            return undecided('replay-crate-did-not-build', cov)
+        cov['bounded_measurements'] = []
+        for sub in meas:
+            try:
+                r = subprocess.run([rb, sub], capture_output=True, text=True, timeout=300)
+                rc, out = r.returncode, (r.stdout + r.stderr)
+            except subprocess.TimeoutExpired:
+                rc, out = -9, 'TIMEOUT (hang)'
+            cov['bounded_measurements'].append({'cmd': 'coset-replay ' + sub, 'rc': rc, 'label': 'bounded stand-in on the real crate, not counted as proved', 'output': out[-1500:]})
+            cov['bounded'].append('replay:' + sub)
+            if rc != 0:
+                os.makedirs(REPLAYS, exist_ok=True)
+                rpath = os.path.join(REPLAYS, '%s-%s.json' % (pid, sub))
+                json.dump({'property': pid, 'failed_obligations': ['replay:' + sub], 'backend': 'native execution of the real crate', 'verifier_output': out[-3000:],
+                           'input': {'kind': 'generated by coset-replay ' + sub}, 'replay_cmd': rb + ' ' + sub}, open(rpath, 'w'), indent=1)
+                write_evidence(pid, a.tier, seed, t0, cov, ASSUMPTIONS_COMMON, 1)
+                print('VIOLATION property=%s replay=%s' % (pid, rpath))
+                return 1
+    if kf:
+        rb = replay_bin()
+        cov['known_findings'] = []
+        for f in kf:
+            if rb is None:
+                return undecided('replay-crate-did-not-build', cov)
+            r = subprocess.run([rb, 'finding', f['id']], capture_output=True, text=True)
+            still = (r.returncode == 1)
+            cov['known_findings'].append({'id': f['id'], 'still_manifests': still, 'replay_output': r.stdout.strip()[:300]})
+            if still:
+                print('KNOWN-FINDING: property=%s %s [%s]' % (pid, f['what'], r.stdout.strip()[:200]))
+            else:
+                print('NOTE property=%s listed finding %s no longer manifests on this tree' % (pid, f['id']))
     write_evidence(pid, a.tier, seed, t0, cov, ASSUMPTIONS_COMMON, 0)
     print('OK property=%s obligations=%d discharged=%d wall=%.1fs' % (pid, len(obl), discharged, time.time() - t0))
     return 0
